@@ -48,12 +48,12 @@ pub fn srange(case: &Case, eff: &mut Eff, f: impl FnOnce(ParEmpty<SchedIter<ConI
     f(par_from_con_iter(SchedIter::new(IntoConcurrentIter::into_con_iter(r))))
 }
 
-pub fn pvec(case: &Case, eff: &mut Eff, f: impl FnOnce(ParEmpty<ConIterOfVec<Tok>>) -> R) -> R {
+pub fn pvec(case: &Case, eff: &mut Eff, f: impl FnOnce(ParEmpty<<Vec<Tok> as IntoPar>::ConIter>) -> R) -> R {
     *eff = elems_of(&case.input);
     f(make_toks(&case.input).into_par())
 }
 
-pub fn pvecref(case: &Case, eff: &mut Eff, f: impl for<'a> FnOnce(ParEmpty<ConIterOfSlice<'a, Tok>>) -> R) -> R {
+pub fn pvecref(case: &Case, eff: &mut Eff, f: impl for<'a> FnOnce(ParEmpty<<Vec<Tok> as AsPar<'a, Tok>>::ConIter>) -> R) -> R {
     *eff = elems_of(&case.input);
     let v = make_toks(&case.input);
     let r = f(v.par());
@@ -61,7 +61,7 @@ pub fn pvecref(case: &Case, eff: &mut Eff, f: impl for<'a> FnOnce(ParEmpty<ConIt
     r
 }
 
-pub fn pslice(case: &Case, eff: &mut Eff, f: impl for<'a> FnOnce(ParEmpty<ConIterOfSlice<'a, Tok>>) -> R) -> R {
+pub fn pslice(case: &Case, eff: &mut Eff, f: impl for<'a> FnOnce(ParEmpty<<&'a [Tok] as IntoPar>::ConIter>) -> R) -> R {
     *eff = elems_of(&case.input);
     let v = make_toks(&case.input);
     let r = f(v.as_slice().into_par());
@@ -69,7 +69,7 @@ pub fn pslice(case: &Case, eff: &mut Eff, f: impl for<'a> FnOnce(ParEmpty<ConIte
     r
 }
 
-pub fn psliceaspar(case: &Case, eff: &mut Eff, f: impl for<'a> FnOnce(ParEmpty<ConIterOfSlice<'a, Tok>>) -> R) -> R {
+pub fn psliceaspar(case: &Case, eff: &mut Eff, f: impl for<'a> FnOnce(ParEmpty<<&'a [Tok] as AsPar<'a, Tok>>::ConIter>) -> R) -> R {
     *eff = elems_of(&case.input);
     let v = make_toks(&case.input);
     let r = {
@@ -80,7 +80,7 @@ pub fn psliceaspar(case: &Case, eff: &mut Eff, f: impl for<'a> FnOnce(ParEmpty<C
     r
 }
 
-pub fn parr3(case: &Case, eff: &mut Eff, f: impl for<'a> FnOnce(ParEmpty<ConIterOfSlice<'a, Tok>>) -> R) -> R {
+pub fn parr3(case: &Case, eff: &mut Eff, f: impl for<'a> FnOnce(ParEmpty<<[Tok; 3] as AsPar<'a, Tok>>::ConIter>) -> R) -> R {
     let inp3: Vec<u8> = case.input.iter().copied().chain(0..3).take(3).collect();
     *eff = elems_of(&inp3);
     let mut it = make_toks(&inp3).into_iter();
@@ -90,23 +90,23 @@ pub fn parr3(case: &Case, eff: &mut Eff, f: impl for<'a> FnOnce(ParEmpty<ConIter
     r
 }
 
-pub fn prange(case: &Case, eff: &mut Eff, f: impl FnOnce(ParEmpty<ConIterOfRange<usize>>) -> R) -> R {
+pub fn prange(case: &Case, eff: &mut Eff, f: impl FnOnce(ParEmpty<<std::ops::Range<usize> as IntoPar>::ConIter>) -> R) -> R {
     *eff = elems_of(&case.input);
     f((1usize..case.input.len() + 1).into_par())
 }
 
-pub fn piter(case: &Case, eff: &mut Eff, f: impl FnOnce(ParEmpty<ConIterOfIter<Tok, LogIter>>) -> R) -> R {
+pub fn piter(case: &Case, eff: &mut Eff, f: impl FnOnce(ParEmpty<<LogIter as IterIntoPar<LogIter>>::ConIter>) -> R) -> R {
     *eff = elems_of_iter(case);
     f(LogIter::new(&case.input, case.known, case.endless).par())
 }
 
-pub fn pdeque(case: &Case, eff: &mut Eff, f: impl FnOnce(ParEmpty<ConIterOfIter<Tok, std::collections::vec_deque::IntoIter<Tok>>>) -> R) -> R {
+pub fn pdeque(case: &Case, eff: &mut Eff, f: impl FnOnce(ParEmpty<<VecDeque<Tok> as IntoPar>::ConIter>) -> R) -> R {
     *eff = elems_of(&case.input);
     let d: VecDeque<Tok> = make_toks(&case.input).into_iter().collect();
     f(d.into_par())
 }
 
-pub fn pdequeref(case: &Case, eff: &mut Eff, f: impl for<'a> FnOnce(ParEmpty<ConIterOfIter<&'a Tok, std::collections::vec_deque::Iter<'a, Tok>>>) -> R) -> R {
+pub fn pdequeref(case: &Case, eff: &mut Eff, f: impl for<'a> FnOnce(ParEmpty<<VecDeque<Tok> as AsPar<'a, Tok>>::ConIter>) -> R) -> R {
     *eff = elems_of(&case.input);
     // exercise the ring buffer: build the deque so that it is not contiguous
     let mut d: VecDeque<Tok> = VecDeque::with_capacity(case.input.len() + 2);
@@ -128,13 +128,13 @@ pub fn pdequeref(case: &Case, eff: &mut Eff, f: impl for<'a> FnOnce(ParEmpty<Con
     r
 }
 
-pub fn plist(case: &Case, eff: &mut Eff, f: impl FnOnce(ParEmpty<ConIterOfIter<Tok, std::collections::linked_list::IntoIter<Tok>>>) -> R) -> R {
+pub fn plist(case: &Case, eff: &mut Eff, f: impl FnOnce(ParEmpty<<LinkedList<Tok> as IntoPar>::ConIter>) -> R) -> R {
     *eff = elems_of(&case.input);
     let d: LinkedList<Tok> = make_toks(&case.input).into_iter().collect();
     f(d.into_par())
 }
 
-pub fn plistref(case: &Case, eff: &mut Eff, f: impl for<'a> FnOnce(ParEmpty<ConIterOfIter<&'a Tok, std::collections::linked_list::Iter<'a, Tok>>>) -> R) -> R {
+pub fn plistref(case: &Case, eff: &mut Eff, f: impl for<'a> FnOnce(ParEmpty<<LinkedList<Tok> as AsPar<'a, Tok>>::ConIter>) -> R) -> R {
     *eff = elems_of(&case.input);
     let d: LinkedList<Tok> = make_toks(&case.input).into_iter().collect();
     let r = f(d.par());
@@ -142,13 +142,13 @@ pub fn plistref(case: &Case, eff: &mut Eff, f: impl for<'a> FnOnce(ParEmpty<ConI
     r
 }
 
-pub fn pbtree(case: &Case, eff: &mut Eff, f: impl FnOnce(ParEmpty<ConIterOfIter<Tok, std::collections::btree_set::IntoIter<Tok>>>) -> R) -> R {
+pub fn pbtree(case: &Case, eff: &mut Eff, f: impl FnOnce(ParEmpty<<BTreeSet<Tok> as IntoPar>::ConIter>) -> R) -> R {
     let d: BTreeSet<Tok> = make_toks(&case.input).into_iter().collect();
     *eff = d.iter().map(|t| (t.id, t.slot)).collect();
     f(d.into_par())
 }
 
-pub fn pbtreeref(case: &Case, eff: &mut Eff, f: impl for<'a> FnOnce(ParEmpty<ConIterOfIter<&'a Tok, std::collections::btree_set::Iter<'a, Tok>>>) -> R) -> R {
+pub fn pbtreeref(case: &Case, eff: &mut Eff, f: impl for<'a> FnOnce(ParEmpty<<BTreeSet<Tok> as AsPar<'a, Tok>>::ConIter>) -> R) -> R {
     let d: BTreeSet<Tok> = make_toks(&case.input).into_iter().collect();
     *eff = d.iter().map(|t| (t.id, t.slot)).collect();
     let r = f(d.par());
@@ -156,13 +156,13 @@ pub fn pbtreeref(case: &Case, eff: &mut Eff, f: impl for<'a> FnOnce(ParEmpty<Con
     r
 }
 
-pub fn pheap(case: &Case, eff: &mut Eff, f: impl FnOnce(ParEmpty<ConIterOfIter<Tok, std::collections::binary_heap::IntoIter<Tok>>>) -> R) -> R {
+pub fn pheap(case: &Case, eff: &mut Eff, f: impl FnOnce(ParEmpty<<BinaryHeap<Tok> as IntoPar>::ConIter>) -> R) -> R {
     let d: BinaryHeap<Tok> = make_toks(&case.input).into_iter().collect();
     *eff = d.iter().map(|t| (t.id, t.slot)).collect();
     f(d.into_par())
 }
 
-pub fn pheapref(case: &Case, eff: &mut Eff, f: impl for<'a> FnOnce(ParEmpty<ConIterOfIter<&'a Tok, std::collections::binary_heap::Iter<'a, Tok>>>) -> R) -> R {
+pub fn pheapref(case: &Case, eff: &mut Eff, f: impl for<'a> FnOnce(ParEmpty<<BinaryHeap<Tok> as AsPar<'a, Tok>>::ConIter>) -> R) -> R {
     let d: BinaryHeap<Tok> = make_toks(&case.input).into_iter().collect();
     *eff = d.iter().map(|t| (t.id, t.slot)).collect();
     let r = f(d.par());
@@ -170,13 +170,13 @@ pub fn pheapref(case: &Case, eff: &mut Eff, f: impl for<'a> FnOnce(ParEmpty<ConI
     r
 }
 
-pub fn phash(case: &Case, eff: &mut Eff, f: impl FnOnce(ParEmpty<ConIterOfIter<Tok, std::collections::hash_set::IntoIter<Tok>>>) -> R) -> R {
+pub fn phash(case: &Case, eff: &mut Eff, f: impl FnOnce(ParEmpty<<HashSet<Tok> as IntoPar>::ConIter>) -> R) -> R {
     let d: HashSet<Tok> = make_toks(&case.input).into_iter().collect();
     *eff = d.iter().map(|t| (t.id, t.slot)).collect();
     f(d.into_par())
 }
 
-pub fn phashref(case: &Case, eff: &mut Eff, f: impl for<'a> FnOnce(ParEmpty<ConIterOfIter<&'a Tok, std::collections::hash_set::Iter<'a, Tok>>>) -> R) -> R {
+pub fn phashref(case: &Case, eff: &mut Eff, f: impl for<'a> FnOnce(ParEmpty<<HashSet<Tok> as AsPar<'a, Tok>>::ConIter>) -> R) -> R {
     let d: HashSet<Tok> = make_toks(&case.input).into_iter().collect();
     *eff = d.iter().map(|t| (t.id, t.slot)).collect();
     let r = f(d.par());
